@@ -294,9 +294,105 @@ func (p *Prog) addContractFrame(w *wset, fc *FuncContract) {
 	}
 }
 
+// staticLocType resolves the static type of a location expression over the parameters of sig; key is the heap
+// key prefix the location lives under ("" for a parameter itself).
+func (p *Prog) staticLoc(fc *FuncContract, sig *types.Signature, x *SX) (t types.Type, key string, ok bool) {
+	switch x.K {
+	case "id":
+		if sig.Recv() != nil && x.Name == fc.RecvName {
+			return sig.Recv().Type(), "", true
+		}
+		for i, n := range fc.Params {
+			if n == x.Name && i < sig.Params().Len() {
+				return sig.Params().At(i).Type(), "", true
+			}
+		}
+		return nil, "", false
+	case "sel":
+		bt, _, ok := p.staticLoc(fc, sig, x.A[0])
+		if !ok {
+			return nil, "", false
+		}
+		if pt, isP := bt.Underlying().(*types.Pointer); isP {
+			bt = pt.Elem()
+		}
+		st, isS := bt.Underlying().(*types.Struct)
+		if !isS {
+			return nil, "", false
+		}
+		for i := 0; i < st.NumFields(); i++ {
+			if st.Field(i).Name() == x.Name {
+				// fields of array elements live under the element key
+				base := typeKey(bt)
+				if x.A[0].K == "idx" {
+					if _, k0, ok0 := p.staticLoc(fc, sig, x.A[0]); ok0 && k0 != "" {
+						base = k0
+					}
+				}
+				return st.Field(i).Type(), base + "." + x.Name, true
+			}
+		}
+		return nil, "", false
+	case "idx":
+		bt, _, ok := p.staticLoc(fc, sig, x.A[0])
+		if !ok {
+			return nil, "", false
+		}
+		switch u := bt.Underlying().(type) {
+		case *types.Slice:
+			return u.Elem(), elemKey(u.Elem()), true
+		case *types.Map:
+			return u.Elem(), mapKey(u), true
+		}
+		return nil, "", false
+	case "un":
+		if x.Op == "*" {
+			bt, _, ok := p.staticLoc(fc, sig, x.A[0])
+			if !ok {
+				return nil, "", false
+			}
+			if pt, isP := bt.Underlying().(*types.Pointer); isP {
+				return pt.Elem(), typeKey(pt.Elem()), true
+			}
+		}
+	case "call":
+		if x.A[0].K == "id" && x.A[0].Name == "heap" && len(x.A) == 2 && x.A[1].K == "str" {
+			return nil, x.A[1].Str, true
+		}
+	}
+	return nil, "", false
+}
+
+// addExplicitFrame adds the heap keys named by an explicit modifies clause; false if an item cannot be resolved.
+func (p *Prog) addExplicitFrame(w *wset, fc *FuncContract, sig *types.Signature) bool {
+	var keys []string
+	for _, m := range fc.Modifies {
+		root := m
+		for root.K == "idx" || root.K == "sel" {
+			root = root.A[0]
+		}
+		if root.K == "id" && p.ghost(root.Name) != nil {
+			keys = append(keys, "ghost:"+root.Name)
+			continue
+		}
+		_, k, ok := p.staticLoc(fc, sig, m)
+		if !ok || k == "" {
+			return false
+		}
+		keys = append(keys, k)
+	}
+	for _, k := range keys {
+		w.add(k)
+	}
+	return true
+}
+
 func (p *Prog) addCallee(w *wset, caller, callee *ssa.Function, cc *ssa.CallCommon, calls map[*ssa.Function][]*ssa.Function) {
 	if fc := p.ContractForFunc(callee); fc != nil && (callee.Synthetic == "" || len(callee.Blocks) == 0) {
 		if fc.ModAll || fc.ModInferred || len(fc.Modifies) > 0 {
+			if !fc.ModAll && !fc.ModInferred && p.addExplicitFrame(w, fc, callee.Signature) {
+				return
+			}
 			if len(callee.Blocks) > 0 && isRepoFunc(callee) {
 				calls[caller] = append(calls[caller], callee)
 				return
